@@ -302,6 +302,9 @@ impl Worksheet {
         value: f64,
         style: i32,
     ) -> Result<(), String> {
+        if value.is_nan() || value.is_infinite() {
+            return Err("Cannot store a number that is not finite".to_string());
+        }
         let cell = Cell::new_number(value, style);
         self.update_cell(row, column, cell)
     }
